@@ -66,6 +66,38 @@ class Transport(object):
         for d in seq:
             self.write(d)
 
+    # the rest of what a TCP transport offers (harmless no-ops: an implementation may call them)
+    @property
+    def connected(self):
+        return 0 if self.c.phase == "lost" else 1
+
+    def setTcpNoDelay(self, enabled):
+        self._nodelay = bool(enabled)
+
+    def getTcpNoDelay(self):
+        return getattr(self, "_nodelay", False)
+
+    def setTcpKeepAlive(self, enabled):
+        self._keepalive = bool(enabled)
+
+    def getTcpKeepAlive(self):
+        return getattr(self, "_keepalive", False)
+
+    def registerProducer(self, producer, streaming):
+        self._producer = producer
+
+    def unregisterProducer(self):
+        self._producer = None
+
+    def pauseProducing(self):
+        pass
+
+    def resumeProducing(self):
+        pass
+
+    def stopProducing(self):
+        self.loseConnection()
+
     def getPeer(self):
         return ADDRS[self.c.a]
 
